@@ -47,7 +47,8 @@ def BOUNDS(tier):
 
 def configs(tier):
     c = []
-    for g in ("GA", "GB", "toy"):
+    genes = ("GA", "GB", "toy") + (("GC", "GD", "GE", "nudt15") if tier == "thorough" else ())
+    for g in genes:
         for b in ("hg19", "hg38"):
             c.append({"gene": g, "genome": b})
     return c
